@@ -366,6 +366,8 @@ def check_undefined(model: FsmModel, rep):
 def run(repo, rep):
     from ..pitfalls import memo_rule as _memo_rule
     _memo_rule(repo, rep, 'C04', 'C04.Z1')
+    from ..pitfalls import log_rule as _log_rule
+    _log_rule(repo, rep, 'C04', 'C04.Z2')
     model = FsmModel(repo)
     rep.trust('PS3.8 Table 9-10 / Tables 9-6..9-9 as transcribed in pnd_static/oracles/ps3_8.py '
               '(cross-checked by row totals)')
